@@ -1,4 +1,5 @@
 import HexProofs.Numeric.Simple
+import HexProofs.Numeric.RangesMore
 import HexProofs.Numeric.AvgExtra
 import HexProofs.Numeric.Channel
 import HexProofs.Numeric.Extremes
@@ -1140,7 +1141,14 @@ proved above, the property also speaks about
   filling, every append schedule),
 * candles that already carry readings of OTHER indicators (here: none under the tree's own names).
 For every such history that returns, every stored RSI reading is `None` or a float in `[0, 100]`.
-NOT proved.  Also outside: IEEE effects (`K` is an exact ordered field with a lawful decimal rounding – overflow,
+NOT proved in this generality.  PROVED since (end of this file, `HexProofs/Numeric/RangesMore.lean`): all fourteen relations on the
+three HEIKIN-ASHI configurations `{ha}`, `{tf, ha}`, `{tf, fill, ha}` (`…_ha_…`, `C10_RSI_HA_holds`); on a LIFESPAN manager under
+C15's retention hypothesis – every retained candle satisfies the relation (`…_lifespan_…`, `C10_RSI_lifespan_holds`); for a
+late-starting foreign INPUT (`None` on the first `t0` candles) at engine level for RSI, STDEV, BBANDS (`rsi_chained_range`,
+`stdev_chained_nonneg`, `bbands_chained_order`, `C10_RSI_chained_holds`); the whole-run MACD histogram identity (`macd_live_histogram`,
+±3ε_n) and Counter on every manager (`counter_live_moves`).  Still open: lifespan without the retention hypothesis (SMA / ROC /
+BBANDS then raise `IndexError`: C09 `lifespan_short_retention_raises`), lifespan combined with a timeframe or Heikin-Ashi, inputs for
+the other kinds, object-level runs over candles carrying foreign columns.  Also outside: IEEE effects (`K` is an exact ordered field with a lawful decimal rounding – overflow,
 NaN and binary rounding error are not modelled); for TSI the range `[−100, 100]` additionally needs the rounding
 law `RoundNegLe` (true of Python's `round`, not derivable from `LawfulPyF`; without it only
 `|TSI| ≤ 100 + 200·β/abs_second + ε` is proved); for ADX an upper bound `DI± ≤ 100` (needs ATR ≥ smoothed DM across
@@ -1297,5 +1305,306 @@ example : ∃ (vs : List (Val ℚ)) (cnt : Nat → Nat),
   refine ⟨vs, cnt, h2, h3, ?_⟩
   subst h0
   decide
+
+/-! ### whole runs on Heikin-Ashi managers, on lifespan managers, and for late-starting / foreign inputs
+(HexProofs/Numeric/RangesMore.lean: `HoldsOn M ind P` = every history on manager `M` returns, with as many candles
+as the manager's and candle `j` satisfying the per-candle invariant `P spec j`; `HoldsOnHA` = on `{ha}`, `{tf, ha}`,
+`{tf, fill, ha}` (`HoldsOnHA.unfold`); `HoldsOnLifespan ind L` = on `{lifespan}` under `RetainsFrom L`: the retained
+candles are the untrimmed run minus `d` popped ones, retained candle `i` satisfying `P stream (d + i)`) -/
+
+theorem rsi_ha_range (p : Nat) (hp : 1 ≤ p) (nm input : String) (fld : Candle K → Num K)
+    (n : Nat) (hn : RsiNames nm) (hk : IsKey nm) (hin : AttrInput input)
+    (hattr : ∀ c : Candle K, c.attr input = some (.num (fld c))) :
+    HoldsOnHA (mkTop (.rsi (p : Int) input : Kind K) nm n) (fun _ j c => RsiIn p nm j c) :=
+  Numeric.rsi_ha p hp nm input fld n hn hk hin hattr
+
+theorem stoch_ha_ranges (p sk sl : Nat) (hp : 2 ≤ p) (hsk : 1 ≤ sk) (hsl : 1 ≤ sl)
+    (nm input : String) (fld : Candle K → Num K) (n : Nat) (hn : StochNames nm) (hin : AttrInput input)
+    (hattr : ∀ c : Candle K, c.attr input = some (.num (fld c))) :
+    HoldsOnHA (mkTop (.stoch (p : Int) (sl : Int) (sk : Int) input : Kind K) nm n)
+      (fun spec j c => StochIn n p sk sl nm fld spec j c) :=
+  Numeric.stoch_ha p sk sl hp hsk hsl nm input fld n hn hin hattr
+
+theorem aroon_ha_range (p : Nat) (hp : 1 ≤ p) (nm : String) (n : Nat) (hk : IsKey nm) :
+    HoldsOnHA (mkTop (.aroon p : Kind K) nm n) (fun spec j c => AroonIn p n nm spec j c) :=
+  Numeric.aroon_ha p hp nm n hk
+
+theorem adx_ha_ranges (nm : String) (n p sg : Nat) (hp : 1 ≤ p) (hg : 1 ≤ sg) (hn : AdxNames nm) :
+    HoldsOnHA (mkTop (.adx (p : Int) (sg : Int) : Kind K) nm n) (fun _ j c => AdxIn p nm j c) :=
+  Numeric.adx_ha nm n p sg hp hg hn
+
+theorem tsi_ha_range (nm : String) (n p s : Nat) (input : String) (fld : Candle K → Num K)
+    (hp : 1 ≤ p) (hs : 1 ≤ s) (hn : TsiNames nm) (hin : AttrInput input)
+    (hattr : ∀ c : Candle K, c.attr input = some (.num (fld c))) :
+    HoldsOnHA (mkTop (.tsi (p : Int) (s : Int) input : Kind K) nm n) (fun _ j c => TsiIn n p s nm j c) :=
+  Numeric.tsi_ha nm n p s input fld hp hs hn hin hattr
+
+theorem atr_ha_nonneg (p : Nat) (hp : 1 ≤ p) (nm : String) (n : Nat) (hk : IsKey nm) (hn : AtrNames nm) :
+    HoldsOnHA (mkTop (.atr (p : Int) : Kind K) nm n) (fun _ j c => AtrIn p nm j c) :=
+  Numeric.atr_ha p hp nm n hk hn
+
+theorem stdev_ha_nonneg [NonnegSqrt K] (p : Nat) (hp : 1 ≤ p) (nm input : String)
+    (fld : Candle K → Num K) (n : Nat) (hn : SdNames nm) (hin : AttrInput input)
+    (hattr : ∀ c : Candle K, c.attr input = some (.num (fld c))) :
+    HoldsOnHA (mkTop (.stdev (p : Int) input : Kind K) nm n) (fun _ j c => SigmaIn p nm j c) :=
+  Numeric.stdev_ha p hp nm input fld n hn hin hattr
+
+theorem bbands_ha_order [NonnegSqrt K] (p : Nat) (hp : 2 ≤ p) (nm input : String)
+    (fld : Candle K → Num K) (n : Nat) (hk : IsKey nm) (hn : BbNames nm) (hin : AttrInput input)
+    (hattr : ∀ c : Candle K, c.attr input = some (.num (fld c))) :
+    HoldsOnHA (mkTop (.bbands (p : Int) input : Kind K) nm n) (fun _ j c => BbIn p nm j c) :=
+  Numeric.bbands_ha p hp nm input fld n hk hn hin hattr
+
+theorem kc_ha_order (p : Nat) (hp : 2 ≤ p) (nm input : String) (fld : Candle K → Num K)
+    (n : Nat) (mult : Num K) (hk : IsKey nm) (hn : KcNames nm) (hin : AttrInput input)
+    (hattr : ∀ c : Candle K, c.attr input = some (.num (fld c))) (hm : 0 ≤ mult.toF) :
+    HoldsOnHA (mkTop (.kc (p : Int) input mult : Kind K) nm n) (fun _ j c => KcIn p nm j c) :=
+  Numeric.kc_ha p hp nm input fld n mult hk hn hin hattr hm
+
+theorem donchian_ha_order (p : Nat) (hp : 2 ≤ p) (nm : String) (n : Nat) (hn : DcNames nm) :
+    HoldsOnHA (mkTop (.donchian p : Kind K) nm n) (fun spec j c => DcIn p n nm spec j c) :=
+  Numeric.donchian_ha p hp nm n hn
+
+theorem hl_ha_enclose (p : Nat) (hp : 1 ≤ p) (nm : String) (n : Nat) (hk : IsKey nm) :
+    HoldsOnHA (mkTop (.hl p : Kind K) nm n) (fun spec j c => HlIn p n nm spec j c) :=
+  Numeric.hl_ha p hp nm n hk
+
+theorem supertrend_ha_shape (p : Nat) (hp : 1 ≤ p) (nm input : String) (mult : Num K) (n : Nat)
+    (hn : StNames nm) (hk : IsKey nm) :
+    HoldsOnHA (mkTop (.supertrend (p : Int) input mult : Kind K) nm n) (fun _ j c => StIn p nm j c) :=
+  Numeric.supertrend_ha p hp nm input mult n hn hk
+
+/-- the whole-run form of the MACD histogram identity, every manager with a spec (also `MgrSpec.base / tf / fill`) -/
+theorem macd_live_histogram (M : MgrSpec K) (nm : String) (n pf ps pg : Nat) (input : String) (fld : Candle K → Num K)
+    (hf : 2 ≤ pf) (hfs : pf ≤ ps) (hg : 1 ≤ pg) (hn : MacdNames nm) (hin : AttrInput input)
+    (hattr : ∀ c : Candle K, c.attr input = some (.num (fld c))) :
+    HoldsOn M (mkTop (.macd (pf : Int) (ps : Int) (pg : Int) input : Kind K) nm n)
+      (fun _ j c => MacdIn n ps pg nm j c) :=
+  Numeric.macd_holds M nm n pf ps pg input fld hf hfs hg hn hin hattr
+
+theorem macd_ha_histogram (nm : String) (n pf ps pg : Nat) (input : String) (fld : Candle K → Num K)
+    (hf : 2 ≤ pf) (hfs : pf ≤ ps) (hg : 1 ≤ pg) (hn : MacdNames nm) (hin : AttrInput input)
+    (hattr : ∀ c : Candle K, c.attr input = some (.num (fld c))) :
+    HoldsOnHA (mkTop (.macd (pf : Int) (ps : Int) (pg : Int) input : Kind K) nm n)
+      (fun _ j c => MacdIn n ps pg nm j c) :=
+  Numeric.macd_ha nm n pf ps pg input fld hf hfs hg hn hin hattr
+
+/-- Counter on EVERY manager with a spec (the former `counter_run_moves` was base timeframe only), every carrier -/
+theorem counter_live_moves {F : Type} [PyF F] (M : MgrSpec F) (nm input : String) (fld : Candle F → Num F)
+    (cv : Scalar F) (n : Nat) (hk : IsKey nm) (hin : AttrInput input)
+    (hattr : ∀ c : Candle F, c.attr input = some (.num (fld c))) :
+    HoldsOn M (mkTop (.counter input cv : Kind F) nm n) (fun spec j c => CountIn cv fld nm spec j c) :=
+  Numeric.counter_holds M nm input fld cv n hk hin hattr
+
+theorem counter_ha_moves {F : Type} [PyF F] (nm input : String) (fld : Candle F → Num F)
+    (cv : Scalar F) (n : Nat) (hk : IsKey nm) (hin : AttrInput input)
+    (hattr : ∀ c : Candle F, c.attr input = some (.num (fld c))) :
+    HoldsOnHA (mkTop (.counter input cv : Kind F) nm n) (fun spec j c => CountIn cv fld nm spec j c) :=
+  Numeric.counter_ha nm input fld cv n hk hin hattr
+
+/-- the side conditions of `StochIn` / `DcIn` on Heikin-Ashi managers, from well-formed candles before conversion -/
+theorem ha_side_conditions (B : List (Candle K)) (h : ∀ c ∈ B, WellFormed c) :
+    InputBetween (·.c) (haSpec B) ∧ LowLeHigh (haSpec B) :=
+  ⟨inputBetween_haSpec_close B h, lowLeHigh_haSpec B h⟩
+
+/-! #### lifespan managers (retention hypothesis `RetainsFrom (treeLook …)`) -/
+
+theorem rsi_lifespan_range' (p : Nat) (hp : 1 ≤ p) (nm input : String) (fld : Candle K → Num K)
+    (n : Nat) (hn : RsiNames nm) (hk : IsKey nm) (hin : AttrInput input)
+    (hattr : ∀ c : Candle K, c.attr input = some (.num (fld c))) :
+    HoldsOnLifespan (mkTop (.rsi (p : Int) input : Kind K) nm n) (treeLook (.rsi (p : Int) input : Kind K) nm n)
+      (fun _ j c => RsiIn p nm j c) :=
+  Numeric.rsi_lifespan p hp nm input fld n hn hk hin hattr
+
+theorem stoch_lifespan_ranges (p sk sl : Nat) (hp : 2 ≤ p) (hsk : 1 ≤ sk) (hsl : 1 ≤ sl)
+    (nm input : String) (fld : Candle K → Num K) (n : Nat) (hn : StochNames nm) (hin : AttrInput input)
+    (hattr : ∀ c : Candle K, c.attr input = some (.num (fld c))) :
+    HoldsOnLifespan (mkTop (.stoch (p : Int) (sl : Int) (sk : Int) input : Kind K) nm n)
+      (treeLook (.stoch (p : Int) (sl : Int) (sk : Int) input : Kind K) nm n)
+      (fun spec j c => StochIn n p sk sl nm fld spec j c) :=
+  Numeric.stoch_lifespan p sk sl hp hsk hsl nm input fld n hn hin hattr
+
+theorem aroon_lifespan_range (p : Nat) (hp : 1 ≤ p) (nm : String) (n : Nat) (hk : IsKey nm) :
+    HoldsOnLifespan (mkTop (.aroon p : Kind K) nm n) (treeLook (.aroon p : Kind K) nm n)
+      (fun spec j c => AroonIn p n nm spec j c) :=
+  Numeric.aroon_lifespan p hp nm n hk
+
+theorem adx_lifespan_ranges (nm : String) (n p sg : Nat) (hp : 1 ≤ p) (hg : 1 ≤ sg) (hn : AdxNames nm) :
+    HoldsOnLifespan (mkTop (.adx (p : Int) (sg : Int) : Kind K) nm n)
+      (treeLook (.adx (p : Int) (sg : Int) : Kind K) nm n) (fun _ j c => AdxIn p nm j c) :=
+  Numeric.adx_lifespan nm n p sg hp hg hn
+
+theorem tsi_lifespan_range (nm : String) (n p s : Nat) (input : String) (fld : Candle K → Num K)
+    (hp : 1 ≤ p) (hs : 1 ≤ s) (hn : TsiNames nm) (hin : AttrInput input)
+    (hattr : ∀ c : Candle K, c.attr input = some (.num (fld c))) :
+    HoldsOnLifespan (mkTop (.tsi (p : Int) (s : Int) input : Kind K) nm n)
+      (treeLook (.tsi (p : Int) (s : Int) input : Kind K) nm n) (fun _ j c => TsiIn n p s nm j c) :=
+  Numeric.tsi_lifespan nm n p s input fld hp hs hn hin hattr
+
+theorem atr_lifespan_nonneg (p : Nat) (hp : 1 ≤ p) (nm : String) (n : Nat) (hk : IsKey nm) (hn : AtrNames nm) :
+    HoldsOnLifespan (mkTop (.atr (p : Int) : Kind K) nm n) (treeLook (.atr (p : Int) : Kind K) nm n)
+      (fun _ j c => AtrIn p nm j c) :=
+  Numeric.atr_lifespan p hp nm n hk hn
+
+theorem stdev_lifespan_nonneg [NonnegSqrt K] (p : Nat) (hp : 1 ≤ p) (nm input : String)
+    (fld : Candle K → Num K) (n : Nat) (hn : SdNames nm) (hin : AttrInput input)
+    (hattr : ∀ c : Candle K, c.attr input = some (.num (fld c))) :
+    HoldsOnLifespan (mkTop (.stdev (p : Int) input : Kind K) nm n)
+      (treeLook (.stdev (p : Int) input : Kind K) nm n) (fun _ j c => SigmaIn p nm j c) :=
+  Numeric.stdev_lifespan p hp nm input fld n hn hin hattr
+
+theorem bbands_lifespan_order [NonnegSqrt K] (p : Nat) (hp : 2 ≤ p) (nm input : String)
+    (fld : Candle K → Num K) (n : Nat) (hk : IsKey nm) (hn : BbNames nm) (hin : AttrInput input)
+    (hattr : ∀ c : Candle K, c.attr input = some (.num (fld c))) :
+    HoldsOnLifespan (mkTop (.bbands (p : Int) input : Kind K) nm n)
+      (treeLook (.bbands (p : Int) input : Kind K) nm n) (fun _ j c => BbIn p nm j c) :=
+  Numeric.bbands_lifespan p hp nm input fld n hk hn hin hattr
+
+theorem kc_lifespan_order (p : Nat) (hp : 2 ≤ p) (nm input : String) (fld : Candle K → Num K)
+    (n : Nat) (mult : Num K) (hk : IsKey nm) (hn : KcNames nm) (hin : AttrInput input)
+    (hattr : ∀ c : Candle K, c.attr input = some (.num (fld c))) (hm : 0 ≤ mult.toF) :
+    HoldsOnLifespan (mkTop (.kc (p : Int) input mult : Kind K) nm n)
+      (treeLook (.kc (p : Int) input mult : Kind K) nm n) (fun _ j c => KcIn p nm j c) :=
+  Numeric.kc_lifespan p hp nm input fld n mult hk hn hin hattr hm
+
+theorem donchian_lifespan_order (p : Nat) (hp : 2 ≤ p) (nm : String) (n : Nat) (hn : DcNames nm) :
+    HoldsOnLifespan (mkTop (.donchian p : Kind K) nm n) (treeLook (.donchian p : Kind K) nm n)
+      (fun spec j c => DcIn p n nm spec j c) :=
+  Numeric.donchian_lifespan p hp nm n hn
+
+theorem hl_lifespan_enclose (p : Nat) (hp : 1 ≤ p) (nm : String) (n : Nat) (hk : IsKey nm) :
+    HoldsOnLifespan (mkTop (.hl p : Kind K) nm n) (treeLook (.hl p : Kind K) nm n)
+      (fun spec j c => HlIn p n nm spec j c) :=
+  Numeric.hl_lifespan p hp nm n hk
+
+theorem supertrend_lifespan_shape (p : Nat) (hp : 1 ≤ p) (nm input : String) (mult : Num K) (n : Nat)
+    (hn : StNames nm) (hk : IsKey nm) :
+    HoldsOnLifespan (mkTop (.supertrend (p : Int) input mult : Kind K) nm n)
+      (treeLook (.supertrend (p : Int) input mult : Kind K) nm n) (fun _ j c => StIn p nm j c) :=
+  Numeric.supertrend_lifespan p hp nm input mult n hn hk
+
+theorem macd_lifespan_histogram (nm : String) (n pf ps pg : Nat) (input : String) (fld : Candle K → Num K)
+    (hf : 2 ≤ pf) (hfs : pf ≤ ps) (hg : 1 ≤ pg) (hn : MacdNames nm) (hin : AttrInput input)
+    (hattr : ∀ c : Candle K, c.attr input = some (.num (fld c))) :
+    HoldsOnLifespan (mkTop (.macd (pf : Int) (ps : Int) (pg : Int) input : Kind K) nm n)
+      (treeLook (.macd (pf : Int) (ps : Int) (pg : Int) input : Kind K) nm n)
+      (fun _ j c => MacdIn n ps pg nm j c) :=
+  Numeric.macd_lifespan nm n pf ps pg input fld hf hfs hg hn hin hattr
+
+theorem counter_lifespan_moves {F : Type} [PyF F] (nm input : String) (fld : Candle F → Num F)
+    (cv : Scalar F) (n : Nat) (hk : IsKey nm) (hin : AttrInput input)
+    (hattr : ∀ c : Candle F, c.attr input = some (.num (fld c))) :
+    HoldsOnLifespan (mkTop (.counter input cv : Kind F) nm n) (treeLook (.counter input cv : Kind F) nm n)
+      (fun spec j c => CountIn cv fld nm spec j c) :=
+  Numeric.counter_lifespan nm input fld cv n hk hin hattr
+
+/-! #### late-starting / foreign-column inputs (engine level) -/
+
+theorem rsi_chained_range (p : Nat) (nm input : String) (n t0 : Nat) (cs : List (Candle K)) (x : Nat → K)
+    (hp : 1 ≤ p) (hk : IsKey nm) (hn : RsiNames nm) (hid : NoDot input) (h1 : input ≠ nm)
+    (h2 : input ≠ nm ++ "_data")
+    (habs : ∀ c ∈ cs, dlookup nm c.inds = none ∧ dlookup nm c.subs = none ∧
+      dlookup (nm ++ "_data") c.inds = none ∧ dlookup (nm ++ "_data") c.subs = none)
+    (hin : ∀ j, j < cs.length → inputSeriesAt cs input j = if j < t0 then none else some (x (j - t0)))
+    (hnone : ∀ j, j < cs.length → j < t0 → readingByCandle (cs.getD j default) input = .none) :
+    ∃ out : List (Candle K), out.length = cs.length ∧
+      engineCalc (mkTop (.rsi (p : Int) input : Kind K) nm n) cs = .ok out ∧
+      ∀ j, j < cs.length → RsiIn (t0 + p) nm j (out.getD j default) :=
+  Numeric.rsi_inputs_range p nm input n t0 cs x hp hk hn hid h1 h2 habs hin hnone
+
+theorem stdev_chained_nonneg [NonnegSqrt K] (p : Nat) (nm input : String) (n t0 : Nat) (cs : List (Candle K))
+    (x : Nat → K) (hp : 1 ≤ p) (hn : SdNames nm) (hik : IsKey input) (h1 : input ≠ nm) (h2 : input ≠ nm ++ "_data")
+    (habs : ∀ c ∈ cs, dlookup nm c.inds = none ∧ dlookup nm c.subs = none ∧
+      dlookup (nm ++ "_data") c.inds = none ∧ dlookup (nm ++ "_data") c.subs = none)
+    (hin : ∀ j, j < cs.length →
+      (match readingByCandle (cs.getD j default) input with
+        | .s (.num r) => some r.toF
+        | _ => none) = if j < t0 then none else some (x (j - t0)))
+    (hnone : ∀ j, j < cs.length → j < t0 → readingByCandle (cs.getD j default) input = .none) :
+    ∃ out : List (Candle K), engineCalc (mkTop (.stdev (p : Int) input : Kind K) nm n) cs = .ok out ∧
+      out.length = cs.length ∧ ∀ j, j < cs.length → SigmaIn (t0 + p) nm j (out.getD j default) :=
+  Numeric.stdev_inputs_nonneg p nm input n t0 cs x hp hn hik h1 h2 habs hin hnone
+
+theorem bbands_chained_order [NonnegSqrt K] (p : Nat) (nm input : String) (n t0 : Nat) (cs : List (Candle K))
+    (x : Nat → K) (hp : 2 ≤ p) (hk : IsKey nm) (hn : BbNames nm) (hi : BbInput nm input)
+    (habs : ∀ c ∈ cs, BbAbsent nm c)
+    (hin : ∀ j, j < cs.length →
+      (match readingByCandle (cs.getD j default) input with
+        | .s (.num r) => some r.toF
+        | _ => none) = if j < t0 then none else some (x (j - t0)))
+    (hnone : ∀ j, j < cs.length → j < t0 → readingByCandle (cs.getD j default) input = .none) :
+    ∃ out : List (Candle K), engineCalc (mkTop (.bbands (p : Int) input : Kind K) nm n) cs = .ok out ∧
+      out.length = cs.length ∧
+      ∀ j, j < cs.length →
+        (j < t0 + p → readingByCandle (out.getD j default) nm = bbNoneDict) ∧
+        (t0 + p ≤ j → ∃ lo mid up : K, readingByCandle (out.getD j default) nm = bbDict lo mid up ∧
+          lo ≤ mid ∧ mid ≤ up) :=
+  Numeric.bbands_inputs_order p nm input n t0 cs x hp hk hn hi habs hin hnone
+
+/-! #### closed statements: the RSI instance of `C10_FULL` on the manager configurations it left open -/
+
+/-- the conclusion of `C10_FULL` -/
+def RsiStoredInRange {K : Type} [Field K] [LinearOrder K] [IsStrictOrderedRing K] [LawfulPyF K]
+    (nm : String) (snap : List (Candle K)) : Prop :=
+  ∀ c ∈ snap, readingByCandle c nm = .none ∨ ∃ y : K, readingByCandle c nm = .flt y ∧ 0 ≤ y ∧ y ≤ 100
+
+/-- **`C10_FULL` on every Heikin-Ashi configuration** (`{ha}`, `{tf, ha}`, `{tf, fill, ha}`), candle-field input:
+every history RETURNS and every stored RSI reading is `None` or in `[0, 100]` -/
+def C10_RSI_HA : Prop :=
+  ∀ (K : Type) [Field K] [LinearOrder K] [IsStrictOrderedRing K] [LawfulPyF K]
+    (p : Nat) (nm : String) (n : Nat) (init : List (Candle K)) (chunks : List (List (Candle K))),
+    1 ≤ p → IsKey nm → RsiNames nm →
+    ((∀ c ∈ init ++ chunks.flatten, Plain c ∧ c.tag = false) →
+      ∃ snap, candlesOf (runIndicator (mkTop (.rsi p "close") nm n) { ha := true } init chunks) = .ok snap ∧
+        RsiStoredInRange nm snap) ∧
+    (∀ tf : Int, 0 < tf → (RawTf (init ++ chunks.flatten) ∧ ∀ c ∈ init ++ chunks.flatten, c.tag = false) →
+      (∃ snap, candlesOf (runIndicator (mkTop (.rsi p "close") nm n) { tf := some tf, ha := true } init chunks)
+          = .ok snap ∧ RsiStoredInRange nm snap) ∧
+      (∃ snap, candlesOf (runIndicator (mkTop (.rsi p "close") nm n) { tf := some tf, fill := true, ha := true }
+          init chunks) = .ok snap ∧ RsiStoredInRange nm snap))
+
+theorem C10_RSI_HA_holds : C10_RSI_HA := by
+  intro K _ _ _ _ p nm n init chunks hp hk hn
+  have h := Numeric.rsi_ha (K := K) p hp nm "close" (·.c) n hn hk ⟨noDot_close, by decide⟩ (fun _ => rfl)
+  exact ⟨fun hok => h.1.every (fun _ _ _ hc => hc.free) init chunks hok,
+    fun tf htf hok => ⟨(h.2 tf htf).1.every (fun _ _ _ hc => hc.free) init chunks hok,
+      (h.2 tf htf).2.every (fun _ _ _ hc => hc.free) init chunks hok⟩⟩
+
+/-- **`C10_FULL` on a lifespan manager that retains the tree's look-back**, candle-field input -/
+def C10_RSI_lifespan : Prop :=
+  ∀ (K : Type) [Field K] [LinearOrder K] [IsStrictOrderedRing K] [LawfulPyF K]
+    (p : Nat) (nm : String) (n : Nat) (life : Int) (init : List (Candle K)) (chunks : List (List (Candle K))),
+    1 ≤ p → IsKey nm → RsiNames nm → (∀ c ∈ init ++ chunks.flatten, Plain c) →
+    trimCandles (some life) init = .ok init →
+    RetainsFrom (treeLook (.rsi (p : Int) "close" : Kind K) nm n) life init init.length chunks →
+    ∃ kept, candlesOf (runIndicator (mkTop (.rsi p "close") nm n) { lifespan := some life } init chunks) = .ok kept ∧
+      RsiStoredInRange nm kept
+
+theorem C10_RSI_lifespan_holds : C10_RSI_lifespan := by
+  intro K _ _ _ _ p nm n life init chunks hp hk hn hpl hinit hret
+  exact Numeric.rsi_lifespan_range p hp nm "close" (·.c) n hn hk ⟨noDot_close, by decide⟩ (fun _ => rfl) life init
+    chunks hpl hinit hret
+
+/-- **`C10_FULL` for an input that is another indicator's reading, late-starting** (engine level, `None` on the
+first `t0` candles – necessary: `c06_chained_full_false`) -/
+def C10_RSI_chained : Prop :=
+  ∀ (K : Type) [Field K] [LinearOrder K] [IsStrictOrderedRing K] [LawfulPyF K]
+    (p : Nat) (nm input : String) (n t0 : Nat) (cs : List (Candle K)) (x : Nat → K),
+    1 ≤ p → IsKey nm → RsiNames nm → NoDot input → input ≠ nm → input ≠ nm ++ "_data" →
+    (∀ c ∈ cs, dlookup nm c.inds = none ∧ dlookup nm c.subs = none ∧
+      dlookup (nm ++ "_data") c.inds = none ∧ dlookup (nm ++ "_data") c.subs = none) →
+    (∀ j, j < cs.length → inputSeriesAt cs input j = if j < t0 then none else some (x (j - t0))) →
+    (∀ j, j < cs.length → j < t0 → readingByCandle (cs.getD j default) input = .none) →
+    ∃ out : List (Candle K), engineCalc (mkTop (.rsi (p : Int) input : Kind K) nm n) cs = .ok out ∧
+      RsiStoredInRange nm out
+
+theorem C10_RSI_chained_holds : C10_RSI_chained := by
+  intro K _ _ _ _ p nm input n t0 cs x hp hk hn hid h1 h2 habs hin hnone
+  obtain ⟨out, hl, hrun, hall⟩ := Numeric.rsi_inputs_range p nm input n t0 cs x hp hk hn hid h1 h2 habs hin hnone
+  refine ⟨out, hrun, fun c hc => ?_⟩
+  obtain ⟨i, hi, rfl⟩ := List.mem_iff_getElem.1 hc
+  have e : out.getD i default = out[i] := by
+    rw [List.getD_eq_getElem?_getD, List.getElem?_eq_getElem hi]; rfl
+  exact (e ▸ hall i (hl ▸ hi)).free
 
 end Hex.C10
